@@ -42,9 +42,20 @@ func (l *CapLogger) SetCommField(key string, value interface{}) {}
 func (l *CapLogger) SetInfoField(key string, value interface{}) {}
 func (l *CapLogger) Error(msg string, ctx ...interface{})       { l.add("E", msg, ctx) }
 func (l *CapLogger) Warn(msg string, ctx ...interface{})        { l.add("W", msg, ctx) }
-func (l *CapLogger) Info(msg string, ctx ...interface{})        { l.noteInfo(msg) }
-func (l *CapLogger) Trace(msg string, ctx ...interface{})       {}
-func (l *CapLogger) Debug(msg string, ctx ...interface{})       {}
+func (l *CapLogger) Info(msg string, ctx ...interface{}) {
+	l.noteInfo(msg)
+	if logAll {
+		l.add("I", msg, ctx)
+	}
+}
+func (l *CapLogger) Trace(msg string, ctx ...interface{}) {}
+func (l *CapLogger) Debug(msg string, ctx ...interface{}) {
+	if logAll {
+		l.add("D", msg, ctx)
+	}
+}
+
+var logAll = os.Getenv("VERIF_LOGALL") != ""
 
 // Tail returns the last n captured lines.
 func (l *CapLogger) Tail(n int) []string {
